@@ -25,6 +25,34 @@ from translate import compact, block_after, block_end, statements, split_top, nu
 
 UNTIED, TIED = [], []
 
+def compact_keep(src):
+    """like `compact`, with the text of string and character literals kept (translate.compact empties them)"""
+    lits, out, i, n = [], [], 0, len(src)
+    while i < n:
+        c = src[i]
+        if c == '"':
+            j = i + 1
+            while j < n and src[j] != '"': j += 2 if src[j] == '\\' else 1
+            lits.append(src[i:j + 1]); out.append(f' LIT{len(lits) - 1}Q '); i = j + 1
+        elif c == "'" and re.match(r"'(\\.|[^\\'])'", src[i:]):
+            m = re.match(r"'(\\.|[^\\'])'", src[i:]); lits.append(m.group(0)); out.append(f' LIT{len(lits) - 1}Q '); i += m.end()
+        elif src.startswith('//', i):
+            j = src.find('\n', i); i = n if j < 0 else j
+        elif src.startswith('/*', i):
+            j = src.find('*/', i); i = n if j < 0 else j + 2
+        else:
+            out.append(c); i += 1
+    text = ''.join(out)
+    m = re.search(r'#\[cfg\(test\)\]\s*(pub\s+)?mod\b', text)
+    if m: text = text[:m.start()]
+    toks = re.findall(r"'?[A-Za-z_0-9]+|\S", text)
+    res = []
+    for t in toks:
+        if res and re.match(r'\w', t) and re.search(r'\w$', res[-1]): res.append(' ')
+        res.append(t)
+    text = ''.join(res)
+    return re.sub(r' ?LIT(\d+)Q ?', lambda m: lits[int(m.group(1))], text)
+
 def attempt(name, fn):
     try:
         v = fn()
@@ -370,6 +398,66 @@ def responder_send(text, where, aw):
     if re.search(r'if let Err\((\w+)\)=' + call + r'\{log::(error|warn)!\([^;{}]*\);\}', body): return 'log'
     refuse(W, "treatment of the result of send_to not recognised")
 
+# ------------------------------------------------------------------ name.rs: the relations between names
+def name_relations(text):
+    W = 'name.rs: is_link_local / is_subdomain_of / without'
+    b = fn_body(text, 'is_link_local', W, r'&self\)')
+    m = re.match(r'match self\.iter\(\)\.last\(\)\{Some\((\w+)\)=>b"([^"\\]*)"\.eq_ignore_ascii_case\(&(?P=lab)\.data\),None=>false,?\}$'.replace('(\\w+)', '(?P<lab>\\w+)', 1), b)
+    if not m: refuse(W, f"is_link_local: {b[:200]}")
+    lit = m.group(2)
+    b = fn_body(text, 'is_subdomain_of', W)
+    m = re.match(r'self\.labels\.len\(\)(>=|>)other\.labels\.len\(\)&&other\.iter\(\)\.rev\(\)\.zip\(self\.iter\(\)\.rev\(\)\)\.all\(\|\((\w+),(\w+)\)\|\*(\w+)==\*(\w+)\)$', b)
+    if not m or {m.group(2), m.group(3)} != {m.group(4), m.group(5)}: refuse(W, f"is_subdomain_of: {b[:200]}")
+    cmp_ = m.group(1)
+    b = fn_body(text, 'without', W)
+    m = re.match(r'if self\.is_subdomain_of\((\w+)\)\{let labels=self\.labels\[\.\.self\.labels\.len\(\)-(\w+)\.labels\.len\(\)\]\.to_vec\(\);Some\(Name\{labels\}\)\}else\{None\}$', b)
+    if not m or m.group(1) != m.group(2): refuse(W, f"without: {b[:200]}")
+    return {'linkLocal': lit, 'subdomainCmp': cmp_, 'without': 'take-length-difference'}
+
+# ------------------------------------------------------------------ rdata/opt.rs: the response code across header and OPT TTL
+def opt_ttl(text):
+    W = 'rdata/opt.rs: extract_rcode_from_ttl / encode_ttl'
+    b = fn_body(text, 'extract_rcode_from_ttl', W)
+    m = re.match(r'let mut rcode=\(ttl&masks::(\w+)\)<<(\d+);rcode\|=header\.response_code as u32;RCODE::from\(rcode as u16\)$', b)
+    if not m: refuse(W, f"extract_rcode_from_ttl: {b[:200]}")
+    e = fn_body(text, 'encode_ttl', W)
+    m2 = re.match(r'let mut ttl:u32=\(header\.response_code as u32&masks::(\w+)\)>>(\d+);ttl\|=\(self\.version as u32\)<<masks::(\w+)\.trailing_zeros\(\);ttl$', e)
+    if not m2: refuse(W, f"encode_ttl: {e[:200]}")
+    return [m.group(1), m.group(2), m2.group(1), m2.group(2), m2.group(3)]
+
+# ------------------------------------------------------------------ simple-mdns: escaping of instance names
+def escapes(text):
+    W = 'simple-mdns/src/instance_information.rs: escaped_instance_name / unescaped_instance_name'
+    b = block_after(text, r'\bfn escaped_instance_name\(instance_name:&str\)->String', W)
+    m = re.match(r'let mut (\w+)=String::new\(\);for c in instance_name\.chars\(\)\{match c\{(.*)_=>(?P=v)\.push\(c\),?\}\}(?P=v)$'.replace('(\\w+)', '(?P<v>\\w+)', 1), b)
+    if not m: refuse(W, f"escaped_instance_name: {b[:200]}")
+    pairs = []
+    rest = m.group(2)
+    for arm in re.finditer(r"'((?:\\.|[^'\\]))'=>" + m.group('v') + r'\.push_str\("((?:\\.|[^"\\])*)"\),', rest):
+        pairs.append((arm.group(1), arm.group(2)))
+    if re.sub(r"'((?:\\.|[^'\\]))'=>" + m.group('v') + r'\.push_str\("((?:\\.|[^"\\])*)"\),', '', rest) != '' or not pairs:
+        refuse(W, f"escaped_instance_name: arms not recognised: {rest[:200]}")
+    u = block_after(text, r'\bfn unescaped_instance_name\(instance_name:&str\)->String', W)
+    mu = re.match(r"let mut (?P<v>\w+)=String::new\(\);let mut (?P<it>\w+)=instance_name\.chars\(\);while let Some\(c\)=(?P=it)\.next\(\)\{match c\{'((?:\\.|[^'\\]))'=>\{if let Some\(c\)=(?P=it)\.next\(\)\{(?P=v)\.push\(c\)\}\}_=>(?P=v)\.push\(c\),?\}\}(?P=v)$", u)
+    if not mu: refuse(W, f"unescaped_instance_name: {u[:200]}")
+    return {'pairs': pairs, 'unescapeOn': mu.group(3)}
+
+# ------------------------------------------------------------------ simple-mdns: what the discovery loops do with a failed reply
+def discovery_send(text, where, aw):
+    W = f'{where}: the listener loop'
+    if aw:
+        body = fn_body(text, 'execution_loop', W)
+        call = r'self\.process_packet\(&recv_buffer\[\.\.count\],addr,&mut on_discovery\)\.await'
+        if len(re.findall(call, body)) != 1: refuse(W, "expected exactly one call of process_packet on the received bytes")
+        if re.search(call + r'\?;', body): return 'propagate'
+        if re.search(r'if let Err\((\w+)\)=' + call + r'\{log::(error|warn)!\([^;{}]*\);\}', body): return 'log'
+        refuse(W, "treatment of the result of process_packet not recognised")
+    body = block_after(text, r'\bfn send_packet\(', W)
+    if re.match(r'if let Err\((\w+)\)=socket\.send_to\(packet_bytes,address\)\{log::(error|warn)!\([^;{}]*\);\}$', body):
+        loop = fn_body(text, 'receive_packets_loop', W)
+        if len(re.findall(r'send_packet\(&sender_socket,&reply,&reply_addr\);', loop)) == 1 and 'send_to' not in loop: return 'log'
+    refuse(W, "treatment of a failed send_to in receive_packets_loop / send_packet not recognised")
+
 # ------------------------------------------------------------------ into_owned bodies: which field each field is copied from
 def into_owned_types(text):
     """[(type name, start of the body)] for every `pub fn into_owned` of a struct in this file"""
@@ -416,9 +504,16 @@ def generate(repo):
              ('q', 'simple-dns/src/dns/question.rs'), ('rr', 'simple-dns/src/dns/resource_record.rs'),
              ('m', 'simple-dns/src/dns/rdata/macros.rs'), ('p', 'simple-dns/src/dns/packet.rs'),
              ('mdns', 'simple-mdns/src/resource_record_manager.rs'),
-             ('rs', 'simple-mdns/src/sync_discovery/simple_responder.rs'), ('ra', 'simple-mdns/src/async_discovery/simple_responder.rs'))}
+             ('rs', 'simple-mdns/src/sync_discovery/simple_responder.rs'), ('ra', 'simple-mdns/src/async_discovery/simple_responder.rs'),
+             ('name', 'simple-dns/src/dns/name.rs'), ('opt', 'simple-dns/src/dns/rdata/opt.rs'), ('inst', 'simple-mdns/src/instance_information.rs'),
+             ('ds', 'simple-mdns/src/sync_discovery/service_discovery.rs'), ('da', 'simple-mdns/src/async_discovery/service_discovery.rs'))}
     if files['p'] is None and files['h'] is None:
         raise OSError(f"{repo}: the sources of simple-dns are not there")
+    def read_keep(p):
+        try: return compact_keep(open(os.path.join(repo, p), encoding='utf-8').read())
+        except (FileNotFoundError, NotADirectoryError, IsADirectoryError): return None
+    files['name'] = read_keep('simple-dns/src/dns/name.rs')
+    files['inst'] = read_keep('simple-mdns/src/instance_information.rs')
     def need(k, fn):
         def g():
             if files[k] is None: refuse(k, "file not found")
@@ -456,6 +551,12 @@ def generate(repo):
             if v is not None: owned.append((ty, v))
     sp = [attempt('mdns.responder_send:sync', need('rs', lambda t: responder_send(t, 'sync_discovery/simple_responder.rs', False))),
           attempt('mdns.responder_send:tokio', need('ra', lambda t: responder_send(t, 'async_discovery/simple_responder.rs', True)))]
+
+    nr = attempt('name.relations', need('name', name_relations))
+    ot = attempt('opt.ttl', need('opt', opt_ttl))
+    es = attempt('mdns.escape', need('inst', escapes))
+    dsend = [attempt('mdns.discovery_send:sync', need('ds', lambda t: discovery_send(t, 'sync_discovery/service_discovery.rs', False))),
+             attempt('mdns.discovery_send:tokio', need('da', lambda t: discovery_send(t, 'async_discovery/service_discovery.rs', True)))]
 
     q = lambda s: '"' + s + '"'
     strs = lambda xs: '[' + ', '.join(q(x) for x in xs) + ']'
@@ -536,8 +637,31 @@ def generate(repo):
           "", "/-- simple-mdns `responder_loop` (sync, tokio): a failed `send_to` is logged (\"log\") or returned with `?` (\"propagate\") -/",
           f"def responderSendSync : Option String := {'none' if sp[0] is None else 'some ' + q(sp[0])}",
           f"def responderSendTokio : Option String := {'none' if sp[1] is None else 'some ' + q(sp[1])}",
+          "/-- the discovery listeners (sync: `receive_packets_loop` + `send_packet`; tokio: `execution_loop` around `process_packet`): same question -/",
+          f"def discoverySendSync : Option String := {'none' if dsend[0] is None else 'some ' + q(dsend[0])}",
+          f"def discoverySendTokio : Option String := {'none' if dsend[1] is None else 'some ' + q(dsend[1])}",
+          "", "/-- name.rs: the label `is_link_local` compares the last label with (ignoring ASCII case); the length comparison of",
+          "`is_subdomain_of` (labels compared pairwise from the right); `without` = the leading labels, by the difference of the lengths -/",
+          f"def linkLocalLabel : Option String := {'none' if nr is None else 'some ' + q(nr['linkLocal'])}",
+          f"def subdomainCmp : Option String := {'none' if nr is None else 'some ' + q(nr['subdomainCmp'])}",
+          f"def withoutShape : Option String := {'none' if nr is None else 'some ' + q(nr['without'])}",
+          "", "/-- rdata/opt.rs: `extract_rcode_from_ttl` = (ttl & masks::A) << s | header rcode; `encode_ttl` = (rcode & masks::B) >> t | version << tz(masks::C):",
+          "[A, s, B, t, C] -/",
+          "def optTtlShape : Option (List String) := " + ('none' if ot is None else f"some {strs(ot)}"),
+          "/-- the two shifts s and t as numbers -/",
+          "def optTtlShifts : Option (Nat × Nat) := " + ('none' if ot is None else f"some ({int(ot[1])}, {int(ot[3])})"),
+          "", "/-- simple-mdns instance names: (character, its escaped form) of `escaped_instance_name`, and the character after which",
+          "`unescaped_instance_name` takes the next one literally (Rust source spelling of the literals) -/",
+          "def escapePairs : Option (List (String × String)) := " + ('none' if es is None else 'some [' + ', '.join(f'({q(lean_str(a))}, {q(lean_str(b))})' for a, b in es['pairs']) + ']'),
+          f"def unescapeOn : Option String := {'none' if es is None else 'some ' + q(lean_str(es['unescapeOn']))}",
           "", "end Dns.Gen.Env", ""]
     return '\n'.join(L)
+
+def lean_str(rust_literal_body):
+    """the text between the quotes of a Rust char / str literal, as the text of a Lean string literal (only `\\\\` and
+    plain characters occur here; both languages spell them alike)"""
+    if not re.fullmatch(r'(?:\\\\|[^\\"])*', rust_literal_body): raise Refuse(f"literal with an escape other than a doubled backslash: {rust_literal_body}")
+    return rust_literal_body
 
 def main():
     here = os.path.dirname(os.path.abspath(__file__))
